@@ -1,5 +1,6 @@
 """C01 - every library code is a valid [[n,k]] stabilizer code."""
 import json
+import os
 
 import codegen
 import codes_common as cc
@@ -64,6 +65,7 @@ def run(rep, work, tier, seed, only=None):
                               no_input=(clause == 'certificate'))
             continue
         good.append(rec)
+    toric2d_tie(rep, work, good)
     groups = cc.batch(good, cc.est_cost, 6.0)
     log('[C01] %d instances in %d files' % (len(good), len(groups)))
     res = cc.run_obligation_files(work, 'c01', groups, body)
@@ -84,6 +86,36 @@ def run(rep, work, tier, seed, only=None):
                 rep.violation(dict(key, site='table', clause='certificate'),
                               '%s: check_cert did not evaluate to true (%s) and the evaluator found no failing clause'
                               % (tag, v), {'instance': key, 'broken': 'check_cert obligation ' + name}, no_input=True)
+
+
+def toric2d_tie(rep, work, recs):
+    """Layer P tie: the parametric Toric2D model's tables equal the dumped ones on every grid size."""
+    from common import coqc_many, eval_results, coq_Z
+    items = [r for r in recs if r['cls'] == 'Toric2DCode' and r['deformation'] is None]
+    if not items:
+        return
+    pt = lambda c: '(%s, %s)' % (coq_Z(c[0]), coq_Z(c[1]))
+    pl = lambda l: '[' + '; '.join(pt(c) for c in l) + ']'
+    lines = ['From Coq Require Import ZArith List Bool.\nImport ListNotations.\nFrom PQ Require Import Toric2D.\nLocal Open Scope Z_scope.\n']
+    for r in items:
+        sup = '[' + '; '.join(pl([it[1] for it in op]) for op in r['stab_ops']) + ']'
+        lines.append('Eval vm_compute in table_matches %d %d %s %s %s.\n' % (r['size'][0], r['size'][1], pl(r['qubits']), pl(r['stab_coords']), sup))
+    f = os.path.join(work, 'c01_toric2d.v')
+    open(f, 'w').write(''.join(lines))
+    rc, o, e, dt = coqc_many([f])[f]
+    vals = eval_results(o)
+    if rc != 0 or len(vals) != len(items):
+        raise RuntimeError('toric2d tie did not evaluate: ' + (o + e)[-1500:])
+    for r, v in zip(items, vals):
+        ok = v.startswith('true')
+        rep.oblige(1, 1 if ok else 0)
+        rep.count('layerP:Toric2D')
+        if not ok:
+            key = cc.inst_key(r)
+            rep.violation(dict(key, site='layer-P', clause='model-matches-implementation'),
+                          '%s: qubit coordinates / stabilizer coordinates / stabilizer supports differ from the parametric Toric2D model '
+                          '(the all-sizes commutation theorem no longer applies to the implementation)' % r['tag'],
+                          {'instance': key, 'broken': 'Toric2D.table_matches'}, no_input=True)
 
 
 def replay(path, work):
